@@ -289,7 +289,10 @@ class PlugsSupport(object):
               time.sleep(0.005)
             except BaseException:  # pylint: disable=broad-except
               pass
-      self.classes[idx] = type('Plug%d' % idx, (base_plugs.BasePlug,), {'__init__': init, 'tearDown': tear_down})
+      # 'alias': a second, distinct class with the SAME module and name (what a class factory produces): plugs are told
+      # apart by class, never by name
+      self.classes[idx] = type('Plug%d' % beh.get('alias', idx), (base_plugs.BasePlug,),
+                               {'__init__': init, 'tearDown': tear_down, 'verif_idx': idx})
 
   def attach(self, phase, node):
     req = node.get('plugs') or []
@@ -307,9 +310,10 @@ class PlugsSupport(object):
     with self.ctx.lock:
       for arg in sorted(kwargs):
         inst = kwargs[arg]
-        name = type(inst).__name__
-        if name.startswith('Plug') and name[4:].isdigit():
-          self.ctx.inst.append('I:%d:%s:%d:%d' % (pid, arg, int(name[4:]), inst.serial))
+        if hasattr(type(inst), 'verif_idx'):
+          # reported under the class that was REQUESTED for this argument, with the serial of what arrived
+          want = self.requested.get(pid, {}).get(arg, type(inst).verif_idx)
+          self.ctx.inst.append('I:%d:%s:%d:%d' % (pid, arg, want, inst.serial))
         elif arg in self.requested.get(pid, {}):
           # something that is not the plug arrived under the plug's argument name
           self.ctx.inst.append('I:%d:%s:%d:%d' % (pid, arg, self.requested[pid][arg], 999999))
